@@ -3,7 +3,7 @@
    property itself on the OBSERVATION ([check]). *)
 From Coq Require Import List String Ascii ZArith NArith Bool.
 Import ListNotations.
-From Onet Require Export Base.Corr Api.Rest Api.RestConc.
+From Onet Require Export Base.Corr Api.Rest Api.RestConc Api.Par.
 
 (* Which variant of the model describes /repo as it is now.  The integrator flips a
    definition to [true] when the corresponding fix commit lands. *)
@@ -24,16 +24,36 @@ Definition c14_world : world :=
                  Reg KBytes HBytes 14 3 3 ];
      w_ws := [ (HStrict, 1); (HLenient, 2); (HLenient, 3) ] |}.
 
-(* one scenario: the clients, the rounds (requests of one round are in flight
-   together; a barrier separates rounds), and the reply observed for each request *)
-Inductive case := Case (clients : list ckind) (rounds : list (list creq)) (obs : list (list reply)).
+(* ---- cases -------------------------------------------------------------------- *)
 
-Definition agree (c : case) : bool :=
-  match c with
-  | Case clients rounds obs => scenario_ok code_flags c14_world clients (ainit c14_world) rounds obs
-  end.
+(* a conversation on the streaming path MsgT: who, what is sent, in this order *)
+Record sconv := SConv { sc_client : nat; sc_msgs : list smsg }.
+(* what came back: per message sent the replies read before the next one was sent, and how it ended *)
+Record sobs := SObs { so_replies : list (list reply); so_status : sstatus }.
 
-Definition mismatches (l : list case) : list nat := mism_idx agree l.
+(* one step of a scenario that drives the repo's own client API against 2-4 servers *)
+Inductive pstep :=
+| StSend (calls : list (nat * pmsg))
+    (* concurrent Client.SendProtobuf calls of ONE client: (destination node, request) *)
+| StCall (o : popts) (use_decoder want_ret : bool) (q : pmsg) (prio : list nat).
+    (* SendProtobufParallel[WithDecoder] to all nodes; prio = the order in which the
+       harness lets the nodes answer ([] = not controlled) *)
+Inductive pstep_obs :=
+| OSend (replies : list reply)
+| OCall (res : option presult) (ret_first ret_final : option msg).
+    (* res = None: the call never returned (the process died / hung) *)
+
+Inductive case :=
+| Case (clients : list ckind) (rounds : list (list creq)) (obs : list (list reply))
+    (* the clients, the rounds (requests of one round are in flight together; a barrier
+       separates rounds), and the reply observed for each request *)
+| CMix (clients : list ckind) (rounds : list (list creq)) (obs : list (list reply))
+       (streams : list (list sconv)) (sobss : list (list sobs))
+    (* the same, and per round the streaming conversations that ran concurrently with it *)
+| CPar (nodes : list nbehav) (keep : bool) (steps : list pstep) (obs : list pstep_obs).
+
+Definition agree_rounds (clients : list ckind) (rounds : list (list creq)) (obs : list (list reply)) : bool :=
+  scenario_ok code_flags c14_world clients (ainit c14_world) rounds obs.
 
 (* ---- the property on the observation ---------------------------------------- *)
 
@@ -139,10 +159,169 @@ Fixpoint dedup (l : list nat) : list nat :=
   | x :: r => if existsb (Nat.eqb x) r then dedup r else x :: dedup r
   end.
 
+(* ---- streaming conversations ------------------------------------------------------ *)
+
+Fixpoint list_eqb {A} (e : A -> A -> bool) (a b : list A) : bool :=
+  match a, b with
+  | [], [] => true
+  | x :: a', y :: b' => e x y && list_eqb e a' b'
+  | _, _ => false
+  end.
+
+Definition sstatus_eqb (a b : sstatus) : bool :=
+  match a, b with SOpen, SOpen | SClosed, SClosed | SDead, SDead => true | _, _ => false end.
+
+Definition agree_conv (c : sconv) (o : sobs) : bool :=
+  let (rs, st) := conversation true (sc_msgs c) in
+  list_eqb (list_eqb reply_eqb) rs (so_replies o) && sstatus_eqb st (so_status o).
+
+(* what the property demands of ONE message of a conversation: the stream computed from
+   that message alone; a failing message gets no reply and the stream is closed *)
+Definition spec_msg (m : smsg) : list reply * bool (* the stream goes on *) :=
+  match conversation true [m] with
+  | ([rs], SOpen) => (rs, true)
+  | _ => ([], false)
+  end.
+
+(* clause 8: a streaming request was not answered with the stream computed for it
+   clause 4: not answered at all (the connection or the server died) *)
+Fixpoint check_conv (msgs : list smsg) (obs : list (list reply)) (st : sstatus) : list nat :=
+  match msgs, obs with
+  | m :: ms, o :: os =>
+      let (rs, goes_on) := spec_msg m in
+      if goes_on then
+        (if list_eqb reply_eqb rs o then check_conv ms os st
+         else if sstatus_eqb st SDead then [4] else [8])
+      else
+        (match o, os with
+         | [], [] => if sstatus_eqb st SClosed then [] else if sstatus_eqb st SDead then [4] else [8]
+         | _, _ => [8]
+         end)
+  | [], [] => if sstatus_eqb st SDead then [4] else []
+  | _ :: _, [] => if sstatus_eqb st SDead then [4] else [8]   (* a message was not sent / not observed *)
+  | [], _ :: _ => [8]
+  end.
+
+Fixpoint zip_with {A B C} (f : A -> B -> C) (d : C) (a : list A) (b : list B) : list C :=
+  match a, b with
+  | x :: a', y :: b' => f x y :: zip_with f d a' b'
+  | [], [] => []
+  | _, _ => [d]
+  end.
+
+Definition agree_streams (ss : list (list sconv)) (os : list (list sobs)) : bool :=
+  forallb (fun x => x) (zip_with (fun cs cos => forallb (fun x => x) (zip_with agree_conv false cs cos)) false ss os).
+
+Definition check_streams (ss : list (list sconv)) (os : list (list sobs)) : list nat :=
+  List.concat (zip_with (fun cs cos => List.concat (zip_with (fun c o => check_conv (sc_msgs c) (so_replies o) (so_status o)) [8] cs cos))
+                   [8] ss os).
+
+(* ---- the repo's client API against several servers ----------------------------------- *)
+
+Fixpoint insert_all (x : nat) (l : list nat) : list (list nat) :=
+  match l with
+  | [] => [[x]]
+  | y :: r => (x :: l) :: map (cons y) (insert_all x r)
+  end.
+Fixpoint perms (l : list nat) : list (list nat) :=
+  match l with
+  | [] => [[]]
+  | x :: r => flat_map (insert_all x) (perms r)
+  end.
+
+Definition presult_eqb (a b : presult) : bool :=
+  match a, b with
+  | RNode x, RNode y => Nat.eqb x y
+  | RError c t, RError c' t' => errc_eqb c c' && String.eqb t t'
+  | RCrash, RCrash => true
+  | _, _ => false
+  end.
+
+Definition omsg_eqb (a b : option msg) : bool :=
+  match a, b with Some x, Some y => msg_eqb x y | None, None => true | _, _ => false end.
+
+Definition decode_q (q : pmsg) : msg := apply_writes zero_msg (pmsg_writes q).
+
+(* the reply of node i to a single SendProtobuf *)
+Definition send_reply (bs : list nbehav) (call : nat * pmsg) : reply :=
+  match node_out bs true (decode_q (snd call)) (fst call) with
+  | POk r => ROk 6 r
+  | PBadReply r => ROk 66 r
+  | PErr c t => RErr c t
+  end.
+
+Definition predicted (bs : list nbehav) (o : popts) (use_decoder want_ret : bool) (q : pmsg)
+           (perm prio : list nat) : option pobs :=
+  let n := List.length bs in
+  let (par, chosen) := getlist n o perm in
+  observe (drive (S (S n)) false want_ret (quit_of o) (node_out bs use_decoder (decode_q q)) prio (pinit par chosen)).
+
+Definition agree_pstep (bs : list nbehav) (st : pstep) (ob : pstep_obs) : bool :=
+  match st, ob with
+  | StSend calls, OSend rs => list_eqb agree_reply (map (send_reply bs) calls) rs
+  | StCall o use_decoder want_ret q prio, OCall (Some res) first final =>
+      let ids := seq 0 (List.length bs) in
+      let cperm := if o_nil o || negb (o_noshuffle o) then perms ids else [ids] in
+      let cprio := match prio with [] => perms ids | _ => [prio] end in
+      existsb (fun perm => existsb (fun pr =>
+        match predicted bs o use_decoder want_ret q perm pr with
+        | Some p => presult_eqb (po_result p) res && omsg_eqb (po_ret_first p) first && omsg_eqb (po_ret_final p) final
+        | None => false
+        end) cprio) cperm
+  | _, _ => false
+  end.
+
+(* clause 7: the value decoded into ret -- when the call returned, or re-read after all
+   workers had finished -- is not the reply that the node named in the result produced
+   for this request (or ret was written although no node was accepted / none was given)
+   clause 1: a single SendProtobuf was not answered with the reply of its destination
+   clause 4: no answer at all *)
+Definition check_pstep (bs : list nbehav) (st : pstep) (ob : pstep_obs) : list nat :=
+  match st, ob with
+  | StSend calls, OSend rs =>
+      List.concat (zip_with (fun c o => if sat_reply true (send_reply bs c) o then []
+                                   else if not_answered o then [4] else [1]) [1] calls rs)
+  | StCall o use_decoder want_ret q prio, OCall res first final =>
+      match res with
+      | None => [4]
+      | Some (RNode n) =>
+          let expect :=
+            if want_ret then
+              match node_out bs use_decoder (decode_q q) n with
+              | POk r => Some (Some r)
+              | _ => None                       (* this node gave no acceptable reply at all *)
+              end
+            else match node_out bs use_decoder (decode_q q) n with
+                 | PErr _ _ => None
+                 | _ => Some None
+                 end in
+          match expect with
+          | Some e => clause 7 (omsg_eqb first e && omsg_eqb final e)
+          | None => [7]
+          end
+      | Some _ => clause 7 (negb want_ret || omsg_eqb first final) (* an error: ret is not a reply; it must at least not change behind the caller's back *)
+      end
+  | _, _ => [1]
+  end.
+
+(* ---- all kinds of case ------------------------------------------------------------------ *)
+
+Definition agree (c : case) : bool :=
+  match c with
+  | Case clients rounds obs => agree_rounds clients rounds obs
+  | CMix clients rounds obs ss sos => agree_rounds clients rounds obs && agree_streams ss sos
+  | CPar bs keep steps obs => forallb (fun x => x) (zip_with (agree_pstep bs) false steps obs)
+  end.
+
+Definition mismatches (l : list case) : list nat := mism_idx agree l.
+
 Definition check (c : case) : list nat :=
   match c with
   | Case clients rounds obs =>
       dedup (check_rounds c14_world clients {| h_writes := []; h_failed := [] |} rounds obs)
+  | CMix clients rounds obs ss sos =>
+      dedup (check_rounds c14_world clients {| h_writes := []; h_failed := [] |} rounds obs ++ check_streams ss sos)
+  | CPar bs keep steps obs => dedup (List.concat (zip_with (check_pstep bs) [1] steps obs))
   end.
 
 Definition violations (l : list case) : list (nat * nat) := viols check l.
